@@ -243,13 +243,13 @@ struct StreamSim : Harness {
     int ok = sut_encode(&G.vt, IO::rd, IO::wr, &io); ticks += io.rcalls + io.wcalls;
     return ok != 0;
   }
-  struct Dec { bool ok; Bytes out; bool over_budget, fired_eof, fired_short; };
+  struct Dec { bool ok; Bytes out; bool over_budget, fired_eof, fired_short; size_t delivered; };
   Dec decode(const Bytes &stream, int64_t eof_at = -1, int64_t short_at = -1, size_t short_n = 0) {
     Dec d; IO io; io.in = stream.data(); io.in_len = stream.size(); io.out = &d.out; io.eof_at = eof_at; io.short_at = short_at; io.short_n = short_n;
     io.budget = 8 * (stream.size() + 64) + 4096;
     g_phase = "decode";
     d.ok = sut_decode(&G.vt, IO::rd, IO::wr, &io) != 0; ticks += io.rcalls + io.wcalls;
-    d.over_budget = io.over_budget; d.fired_eof = io.fired_eof; d.fired_short = io.fired_short;
+    d.over_budget = io.over_budget; d.fired_eof = io.fired_eof; d.fired_short = io.fired_short; d.delivered = io.in_pos;
     return d;
   }
   static size_t modpos(int64_t p, size_t n) { if (n == 0) return 0; int64_t m = p % (int64_t) n; if (m < 0) m += (int64_t) n; return (size_t) m; }
@@ -295,7 +295,10 @@ struct StreamSim : Harness {
   void check_damaged(const Bytes &cur, const Bytes &enc1, const Bytes &plain, const Dec &d, const std::string &family, const std::string &what, Outcome &out) {
     if (d.over_budget) { out.fail("stream_hang", family, "decoder exceeded its reader-call budget on a damaged stream: " + what); return; }
     bool reader_fault = d.fired_eof || d.fired_short;
-    if (cur == enc1 && !reader_fault) {  // the faults cancelled out: this is the unmodified encoder output
+    // What counts is what the reader call-back delivered: stored-stream and reader faults can cancel (bytes appended to the stream and
+    // an end of file signalled exactly where the original ended), and then the decoder saw the unmodified encoder output.
+    bool saw_original = d.delivered == enc1.size() && cur.size() >= enc1.size() && std::equal(enc1.begin(), enc1.end(), cur.begin()) && (d.fired_eof || cur.size() == enc1.size());
+    if ((cur == enc1 && !reader_fault) || (saw_original && d.ok)) {  // the faults cancelled out: this is the unmodified encoder output
       if (!d.ok || d.out != plain) out.fail("stream_lossy", d.ok ? "mismatch" : "decode_fail", "unmodified stream not decoded to the original after no-op faults: " + what);
       return;
     }
@@ -462,7 +465,8 @@ struct StreamSim : Harness {
     g_damaged_read = false;
     if (b_fired_eof) C->count("fault_reader_early_eof");
     out.nontrivial = true;
-    if (cur == stream && !b_fired_eof) { if (rr != 0 || dtext != otext) out.fail("mirbin_lossy", "noop_faults", "unmodified stream not read back after no-op faults"); return; }
+    bool saw_original_b = bpos == stream.size() && cur.size() >= stream.size() && std::equal(stream.begin(), stream.end(), cur.begin()) && b_fired_eof && rr == 0;  // (faults that cancel, as at level A)
+    if ((cur == stream && !b_fired_eof) || saw_original_b) { if (rr != 0 || dtext != otext) out.fail("mirbin_lossy", "noop_faults", "unmodified stream not read back after no-op faults"); return; }
     C->count("mirbin_damaged_reads");
     if (rr != 0) { C->count("mirbin_damaged_rejected"); return; }
     if (family == "alter" && !b_fired_eof && dtext == otext) { C->count("accepted_equivalent"); return; }
